@@ -398,6 +398,15 @@ def run_obligation(ob: Obligation, seed=0):
                 r, model = ctx.check(goal, timeout_ms=ob.timeout_ms, cross=True)
                 if r == "unsat":
                     continue
+                if r == "sat" and ctx.mode == "lra" and ctx.mono and rec.get("refinements", 0) < 4 and len(ctx.mono) <= 600:
+                    # candidate of the monomial abstraction: re-decide with the true products (bounded time)
+                    r2, model2 = ctx.check_refined(goal, timeout_ms=min(15000, ob.timeout_ms))
+                    rec["refinements"] = rec.get("refinements", 0) + 1
+                    if r2 == "unsat":
+                        rec["spurious_candidates_refuted"] = rec.get("spurious_candidates_refuted", 0) + 1
+                        continue
+                    if r2 == "sat":
+                        model = model2
                 all_ok = False
                 if r == "unknown":
                     rec["notes"].append(f"solver unknown on {what} (path {p.decisions})")
@@ -464,6 +473,24 @@ def run_obligation(ob: Obligation, seed=0):
                         rec["violation"] = {"source": "harness witness on plain numpy dtypes (symbolic execution discharged the obligation)",
                                             "inputs": jsonable(ninputs), **detail}
                         break
+            except SymError:
+                pass
+        if rec["status"] == "inconclusive" and ob.witness is not None:
+            # nothing was decided symbolically (path cap, solver unknown, candidate that does not reproduce): the harness' concrete
+            # witnesses still go through the real code - a reproduced failure is a violation, a pass leaves the status inconclusive
+            try:
+                n_w = 0
+                for ninputs in ob.witness():
+                    if ob.valid is not None and not ob.valid(ninputs):
+                        continue
+                    ok, detail = numeric_verdict(ob, ninputs)
+                    n_w += 1
+                    if not ok:
+                        rec["status"] = "violation"
+                        rec["violation"] = {"source": "harness witness (symbolic execution was inconclusive)", "inputs": jsonable(ninputs), **detail}
+                        break
+                else:
+                    rec["notes"].append(f"{n_w} harness witnesses pass on the real code")
             except SymError:
                 pass
         if rec["status"] == "discharged" and ob.dtype_variants:
@@ -762,8 +789,8 @@ def translator_validation(ob, seed):
             b = Builder(ctx, concrete_seed=seed + 1)
             inputs = ob.build(b)
             paths, complete = explore(ctx, lambda: ob.call(copy_inputs(inputs)), max_paths=4)
-            p = paths[0]
             vals = model_values(ctx, None)
+            p = _path_at(ctx, paths, vals)
             sres = to_numeric(p.result, vals, {}) if p.exc is None else None
             ninputs = to_numeric(inputs, vals, {})
         if ob.valid is not None and not ob.valid(ninputs):
@@ -793,6 +820,26 @@ def translator_validation(ob, seed):
         return False
     except SymError:
         return None
+
+
+def _path_at(ctx, paths, vals):
+    """on constants a branch can still fork (a derived atom such as sqrt(13/4) is only constrained through an abstracted
+    monomial): take the explored path whose condition holds at the concrete values of the atoms, not simply the first one"""
+    if len(paths) == 1:
+        return paths[0]
+    try:
+        subs = [(a.z3, z3.RealVal(str(Fraction(vals[a.id]).limit_denominator(10 ** 30)))) for a in ctx.atoms]
+        for mono, t in ctx.mono.items():
+            v = Fraction(1)
+            for i in mono:
+                v *= Fraction(vals[i]).limit_denominator(10 ** 30)
+            subs.append((t, z3.RealVal(str(v))))
+        for p in paths:
+            if all(z3.is_true(z3.simplify(z3.substitute(c, *subs))) for c in p.pc):
+                return p
+    except Exception:  # noqa: BLE001
+        pass
+    return paths[0]
 
 
 def _strip(x):
